@@ -19,10 +19,15 @@ ATOMS = {
     'pnorm3':   ('G', 1, False, 'scalar', 'any', 'soc', lambda e: rso.norm(e, 3), _pn(3)),
     'pnorm52':  ('G', 1, False, 'scalar', 'any', 'soc', lambda e: rso.pnorm(e, (5, 2)), _pn(2.5)),
     'pnorm_x':  ('N', 1, False, 'scalar', 'any', 'exp', lambda e: rso.pnorm(e, 2.5), _pn(2.5)),
+    'pnorm73x': ('N', 1, False, 'scalar', 'any', 'exp', lambda e: rso.pnorm(e, (7, 3), 'exc'), _pn(7.0 / 3.0)),
+    'pnorm4x':  ('N', 1, False, 'scalar', 'any', 'exp', lambda e: rso.pnorm(e, 4, 'exc'), _pn(4.0)),
     'square':   ('S', 1, True, 'elem', 'any', 'soc', lambda e: rso.square(e), lambda v: v ** 2),
     'sumsqr':   ('Q', 1, True, 'scalar', 'any', 'soc', lambda e: rso.sumsqr(e), lambda v: float((v ** 2).sum())),
     'power32':  ('T', 1, False, 'elem', 'any', 'soc', lambda e: rso.power(e, 3, 2), lambda v: np.abs(v) ** 1.5),
     'power3':   ('T', 1, False, 'elem', 'any', 'soc', lambda e: rso.power(e, 3), lambda v: np.abs(v) ** 3.0),
+    'power_arr': ('T', 1, False, 'elem', 'any', 'soc',
+                  lambda e: rso.power(e, np.array([1, 3, 5])[:e.size], np.array([1, 1, 2])[:e.size]),
+                  lambda v: np.abs(v) ** np.array([1.0, 3.0, 2.5])[:len(v)]),
     'gmean':    ('C', -1, False, 'scalar1', 'pos', 'soc', lambda e: rso.gmean(e), lambda v: float(np.prod(v) ** (1.0 / len(v)))),
     'gmean_w':  ('C', -1, False, 'scalar1', 'pos', 'soc', lambda e: rso.gmean(e, [2, 1, 1][:e.size] if e.size <= 3 else None),
                  lambda v: float(np.prod(v ** np.array([2, 1, 1][:len(v)])) ** (1.0 / sum([2, 1, 1][:len(v)])))),
